@@ -144,3 +144,50 @@ SPEC_ENTRY = {'title': 'PCI bus helpers size BARs without side effects and addre
               '64 else 0 in\n'
               '  snd (capabilities 64 rdc) = false.\n'
               'Proof. vm_compute. reflexivity. Qed.']}
+
+
+# ---------------------------------------------------------------------------------------------------------------------
+# appended: the x86-64 pKVM hypercall transport under C12 (Model/HypPci.v, Proofs/HypPciProofs.v sections 6 and 7): HypCam addresses
+# configuration space uniquely for EVERY base (aligned to the window or not), and the probing done by HypPciTransport::new leaves the
+# function untouched.  Its modules are imported BEFORE Model.PciBus so that the names of the existing statements keep their meaning.
+PROPS_ENTRY['models'] += ['Model/HypPci.v']
+PROPS_ENTRY['assumptions'] += ['HypCam (C12_hyp_cam_*): the caller\'s contract of HypCam::new is that the CAM window lies inside the physical address space '
+ '(phys_base + 16 MiB / 256 MiB <= 2^64); phys_base is otherwise arbitrary (page-aligned bases that are not aligned to the window size included); '
+ 'bus and register_offset are u8 by type',
+ 'HypPciTransport::new (C12_hyp_probe_restores): the function behind ConfigurationAccess is the reference function (six BAR registers of 32 bits, 16-bit '
+ 'command: fn_ok); every outcome of new (transport, error, panic) is covered; the capability list is the one new walks (a cyclic list never ends on the '
+ 'real code and is excluded as in C11)']
+PROPS_ENTRY['trusted_extra'] += ['hypercall back end of the harness (scen/c11_hyp.rs): the CAM window it serves is [phys_base, phys_base + window) for bases that are '
+ 'not window-aligned too; a hypercall outside it is answered from the BAR answer queue and shows up in the observation as an address outside the window '
+ '(monitor 1257 judges the ADDRESS the real code passed to hyp_io_read / hyp_io_write, not what the back end made of it)']
+SPEC_ENTRY['imports'] = ['Model.Pci', 'Model.PciSpec', 'Model.HypPci', 'Proofs.PciProofs', 'Proofs.HypPciProofs'] + SPEC_ENTRY['imports']
+SPEC_ENTRY['theorems'] += [
+ ('C12_hyp_cam_injective',
+  'Proofs/HypPciProofs.v',
+  'hyp_cam_injective',
+  'x86-64 hypercall transport, HypCam::read_word / write_word, both mechanisms, EVERY phys_base with phys_base + window <= 2^64 (aligned to the window '
+  'size or not): the hypercall of a valid request goes to phys_base + ((bus*256 + dev*8 + fn) * stride + reg), the sum IN N (never `|`), four bytes wholly '
+  'inside [phys_base, phys_base + window), and two valid requests with the same address are the same (bus, device, function, register) (by C12_cam / '
+  'C12_cam_injective)'),
+ ('C12_hyp_cam_monitor_meaning',
+  'Proofs/HypPciProofs.v',
+  'hyp_cam_addrs_b_sound',
+  'what a true monitor 1257 means on ANY list of observed requests: exact address, inside the window, one four-byte hypercall per valid request, invalid '
+  'requests refused without a hypercall, distinct valid requests at distinct addresses'),
+ ('C12_hyp_cam_conforms',
+  'Proofs/HypPciProofs.v',
+  'hyp_cam_addrs_conform',
+  'the monitor (kind 1257, evaluated on the addresses the real code passes to the hypercalls) holds of the model for every list of requests, reads and '
+  'writes, both mechanisms, every base'),
+ ('C12_hyp_cam_rejects_or', 'Proofs/HypPciProofs.v', 'hyp_cam_addrs_b_rejects_or',
+  'the monitor is false on phys_base | offset (seeded change C12-m18) for ECAM at 0x3_9800_0000, bus 0x80, and true on phys_base + offset'),
+ ('C12_hyp_cam_nonvacuous', 'Proofs/HypPciProofs.v', 'hyp_cam_addrs_nonvacuous', None),
+ ('C12_hyp_probe_restores',
+  'Proofs/HypPciProofs.v',
+  'hyp_new_probe_restores',
+  'HypPciTransport::new (up to four bar_info probes between configuration reads) on EVERY function with six 32-bit BAR registers and EVERY 16-bit '
+  'command value (decoding enabled or not, bits without a named flag set or not), whatever it returns: the function is exactly as it was (command '
+  'register and all six BAR registers) and no all-ones sizing pattern is written to a BAR register while address decoding is enabled (corollary of '
+  'C11_hyp_new_refines and C12_bar_info_no_side_effects)'),
+ ('C12_hyp_probe_nonvacuous', 'Proofs/HypPciProofs.v', 'hyp_new_probe_nonvacuous',
+  'command 0xf887: three probes, each clears exactly the decode bits (0xf884) and puts 0xf887 back')]
